@@ -245,3 +245,151 @@ impl DecodeAttributeValue for ReservationToken {
     }
 //@end
 }
+// props: C01 C02
+proof fn lemma_roundtrip_ReservationToken(x: ReservationToken, enc: Seq<u8>)
+    ensures ReservationToken::unwire(x.wire(enc), enc) == Some(x),
+{
+    let t1 = choose|t: ReservationToken| t.0@ == x.wire(enc).subrange(0, 8);
+    assert(x.wire(enc).subrange(0, 8) =~= x.0@);
+    assert(t1.0@ =~= x.0@);
+    vstd::array::axiom_array_ext_equal(t1.0, x.0);
+}
+
+// ---------------------------------------------------------------- ICMP (RFC 8656 18.13): reserved(16)=0 | type(7) code(9) | error data(32)
+// crate bounded_integer: BoundedU8<MIN, MAX> / BoundedU16<MIN, MAX> hold an integer in MIN..=MAX (trusted shim of its documented API)
+#[verifier::external_body]
+pub struct BoundedU8<const MIN: u8, const MAX: u8> { _v: u8 }
+impl<const MIN: u8, const MAX: u8> BoundedU8<MIN, MAX> {
+    pub uninterp spec fn val(&self) -> u8;
+    #[verifier::external_body]
+    pub fn new(v: u8) -> (r: Option<Self>)
+        ensures r is Some <==> MIN <= v <= MAX, r is Some ==> r->Some_0.val() == v,
+    { unimplemented!() }
+    #[verifier::external_body]
+    pub fn get(self) -> (r: u8) ensures r == self.val(), MIN <= r <= MAX { unimplemented!() }
+}
+impl<const MIN: u8, const MAX: u8> Clone for BoundedU8<MIN, MAX> { #[verifier::external_body] fn clone(&self) -> (r: Self) ensures r == *self { unimplemented!() } }
+impl<const MIN: u8, const MAX: u8> Copy for BoundedU8<MIN, MAX> {}
+impl<const MIN: u8, const MAX: u8> vstd::std_specs::convert::FromSpecImpl<BoundedU8<MIN, MAX>> for u16 {
+    open spec fn obeys_from_spec() -> bool { true }
+    open spec fn from_spec(v: BoundedU8<MIN, MAX>) -> Self { v.val() as u16 }
+}
+impl<const MIN: u8, const MAX: u8> From<BoundedU8<MIN, MAX>> for u16 {
+    #[verifier::external_body]
+    fn from(v: BoundedU8<MIN, MAX>) -> (r: u16) ensures r == v.val() as u16, MIN <= v.val() <= MAX { unimplemented!() }
+}
+#[verifier::external_body]
+pub struct BoundedU16<const MIN: u16, const MAX: u16> { _v: u16 }
+impl<const MIN: u16, const MAX: u16> BoundedU16<MIN, MAX> {
+    pub uninterp spec fn val(&self) -> u16;
+    #[verifier::external_body]
+    pub fn new(v: u16) -> (r: Option<Self>)
+        ensures r is Some <==> MIN <= v <= MAX, r is Some ==> r->Some_0.val() == v,
+    { unimplemented!() }
+    #[verifier::external_body]
+    pub fn get(self) -> (r: u16) ensures r == self.val(), MIN <= r <= MAX { unimplemented!() }
+}
+impl<const MIN: u16, const MAX: u16> Clone for BoundedU16<MIN, MAX> { #[verifier::external_body] fn clone(&self) -> (r: Self) ensures r == *self { unimplemented!() } }
+impl<const MIN: u16, const MAX: u16> Copy for BoundedU16<MIN, MAX> {}
+impl<const MIN: u16, const MAX: u16> vstd::std_specs::convert::FromSpecImpl<BoundedU16<MIN, MAX>> for u16 {
+    open spec fn obeys_from_spec() -> bool { true }
+    open spec fn from_spec(v: BoundedU16<MIN, MAX>) -> Self { v.val() }
+}
+impl<const MIN: u16, const MAX: u16> From<BoundedU16<MIN, MAX>> for u16 {
+    #[verifier::external_body]
+    fn from(v: BoundedU16<MIN, MAX>) -> (r: u16) ensures r == v.val(), MIN <= v.val() <= MAX { unimplemented!() }
+}
+// a bounded integer is its value (the crate's types are transparent wrappers)
+#[verifier::external_body]
+pub broadcast proof fn axiom_bounded_u8_ext<const MIN: u8, const MAX: u8>(a: BoundedU8<MIN, MAX>, b: BoundedU8<MIN, MAX>)
+    ensures #[trigger] a.val() == #[trigger] b.val() ==> a == b, MIN <= a.val() <= MAX,
+{}
+#[verifier::external_body]
+pub broadcast proof fn axiom_bounded_u16_ext<const MIN: u16, const MAX: u16>(a: BoundedU16<MIN, MAX>, b: BoundedU16<MIN, MAX>)
+    ensures #[trigger] a.val() == #[trigger] b.val() ==> a == b, MIN <= a.val() <= MAX,
+{}
+//@consts stun_rs :: mod attributes > mod turn > mod icmp
+//@item! stun_rs :: mod attributes > mod turn > mod icmp > type IcmpType
+//@item! stun_rs :: mod attributes > mod turn > mod icmp > type IcmpCode
+//@item! stun_rs :: mod attributes > mod turn > mod icmp > struct Icmp
+impl StunAttributeType for Icmp {
+    open spec fn spec_type() -> u16 { 0x8004 }
+//@item stun_rs :: mod attributes > mod turn > mod icmp > impl crate::attributes::StunAttributeType for Icmp > fn get_type
+//@tags C02 C01
+//@end
+//@item stun_rs :: mod attributes > mod turn > mod icmp > impl crate::attributes::StunAttributeType for Icmp > fn attribute_type
+//@tags C02 C01
+//@end
+}
+impl Icmp {
+//@item stun_rs :: mod attributes > mod turn > mod icmp > impl Icmp > fn new
+//@tags C19
+//@spec
+    ensures r.icmp_type == icmp_type, r.icmp_code == icmp_code, r.error_data == error_data,
+//@end
+//@item stun_rs :: mod attributes > mod turn > mod icmp > impl Icmp > fn icmp_type
+//@tags C19
+//@spec
+    ensures r == self.icmp_type,
+//@end
+//@item stun_rs :: mod attributes > mod turn > mod icmp > impl Icmp > fn icmp_code
+//@tags C19
+//@spec
+    ensures r == self.icmp_code,
+//@end
+//@item stun_rs :: mod attributes > mod turn > mod icmp > impl Icmp > fn error_data
+//@tags C19
+//@spec
+    ensures r@ == self.error_data@,
+//@end
+}
+pub open spec fn icmp_word(t: int, c: int) -> int { t * 512 + c }
+impl EncodeAttributeValue for Icmp {
+    open spec fn wire(&self, enc: Seq<u8>) -> Seq<u8> {
+        seq![0u8, 0u8] + be16_seq(icmp_word(self.icmp_type.val() as int, self.icmp_code.val() as int)) + self.error_data@
+    }
+    open spec fn encodable(&self, enc: Seq<u8>) -> bool { true }
+//@item stun_rs :: mod attributes > mod turn > mod icmp > impl EncodeAttributeValue for Icmp > fn encode
+//@tags C01 C02 C14
+//@rules R5P
+//@head
+    broadcast use axiom_bounded_u8_ext, axiom_bounded_u16_ext;
+//@before "icmp.encode("
+    proof {
+        assert(icmp_type <= 127 && icmp_code <= 511);
+        assert(((icmp_type << 9) | icmp_code) == icmp_type * 512 + icmp_code) by (bit_vector) requires icmp_type <= 127, icmp_code <= 511;
+    }
+//@stmt "Ok(ICMP_SIZE)"
+    proof {
+        assert(raw_value@.subrange(2, 4) == be16_seq(icmp as int));
+        assert(raw_value@.subrange(0, 8) =~= seq![0u8, 0u8] + raw_value@.subrange(2, 4) + self.error_data@);
+    }
+//@end
+}
+impl DecodeAttributeValue for Icmp {
+    open spec fn unwire(raw: Seq<u8>, prefix: Seq<u8>) -> Option<Self> {
+        if raw.len() >= 8 {
+            let w = be16(raw.subrange(2, 4));
+            Some(choose|x: Icmp| x.icmp_type.val() == w / 512 && x.icmp_code.val() == w % 512 && x.error_data@ == raw.subrange(4, 8))
+        } else { None }
+    }
+//@item stun_rs :: mod attributes > mod turn > mod icmp > impl DecodeAttributeValue for Icmp > fn decode
+//@tags C01 C02 C03 C19
+//@head
+    broadcast use axiom_bounded_u8_ext, axiom_bounded_u16_ext;
+//@before "let icmp_type"
+    proof {
+        assert(icmp >> 9 == icmp / 512 && icmp >> 9 <= 127 && 0x01ff & icmp == icmp % 512 && 0x01ff & icmp <= 511) by (bit_vector);
+        assert(raw_value@.subrange(2, 4) =~= ctx.raw_value@.subrange(2, 4));
+    }
+//@stmt "Ok((Icmp::new(icmp_type, icmp_code, error_data), ICMP_SIZE))"
+    proof {
+        let x0 = Icmp { icmp_type, icmp_code, error_data };
+        let w = be16(ctx.raw_value@.subrange(2, 4));
+        let x1 = choose|x: Icmp| x.icmp_type.val() == w / 512 && x.icmp_code.val() == w % 512 && x.error_data@ == ctx.raw_value@.subrange(4, 8);
+        assert(x0.icmp_type.val() == w / 512 && x0.icmp_code.val() == w % 512 && x0.error_data@ == ctx.raw_value@.subrange(4, 8));
+        assert(x1.error_data@ =~= x0.error_data@);
+        vstd::array::axiom_array_ext_equal(x1.error_data, x0.error_data);
+    }
+//@end
+}
